@@ -180,7 +180,7 @@ def u_from_corrdata(ctx, ref, unk):
     ctx.assume(z3.And(b.t < nb.t, k.t < N.t), "post:arbitrary bin and jackknife row")
     e = binning.edges._elem
     dz = e(b.t + 1) - e(b.t)
-    sqrt = realfn.F["sqrt"]
+    sqrt = realfn.sqrt_term
     one = z3.RealVal(1)
     ss_v = refd.data._elem(b.t) if ref else one
     pp_v = unkd.data._elem(b.t) if unk else one
